@@ -70,6 +70,24 @@ def gen(rng, kind):
                     xl[i] = -1e-9 * delta * rng.random()
                 else:
                     xu[i] = 1e-9 * delta * rng.random()
+    elif r < 0.28 and n >= 2:
+        # badly scaled gradient: a steep component BLOCKED by a bound active at the origin (it cannot be followed), next to
+        # free components several decades smaller (within the 12 decades the property speaks of)
+        i = int(rng.integers(n))
+        ratio = 10.0 ** rng.uniform(3, 12)
+        others = np.array([j for j in range(n) if j != i])
+        base = max(float(np.max(np.abs(g[others]))), 1e-3 * mag)
+        if not np.any(g[others]):
+            g[others[0]] = base
+        if rng.random() < 0.5:
+            xl[i], g[i] = 0.0, base * ratio
+            xu[i] = max(xu[i], 0.0)
+        else:
+            xu[i], g[i] = 0.0, -base * ratio
+            xl[i] = min(xl[i], 0.0)
+        if rng.random() < 0.5:
+            H = np.zeros((n, n))
+            convex = True
     mub = int(rng.integers(0, 4)) if kind in ("constrained_tangential", "normal") else 0
     meq = int(rng.integers(0, min(n, 3) + 1)) if kind in ("constrained_tangential", "normal") else 0
     aub = rng.normal(size=(mub, n))
